@@ -131,7 +131,13 @@ def _relabelled_fits(ctx, case, kind, m0, perms):
                           'fit-not-equivariant', rtol=1e-7, atol=1e-8,
                           kind=kind, what=f'perm={perm}')
         post1 = ctx.lib(mm.predict, m1, c2)
-        atol = 1e-7
+        # the parameters have just been found equal to 1e-7 relative; a posterior
+        # moves by the change of the log densities, which the stream exponents
+        # of the integration models multiply, and two runs of many iterations
+        # drift apart by rounding a little further with every iteration
+        atol = 1e-7 * max(1.0, case.iterations / 5.0) * max(
+            1.0, float(case.opts.get('spatial_weight', 1.0) or 1.0),
+            float(case.opts.get('spectral_weight', 1.0) or 1.0))
         if kind == 'cbmm':
             # the Bingham eigenvalues come from an iterative solver whose two
             # runs (classes summed in a different order) stop up to its
